@@ -519,6 +519,33 @@ func instrumentFile(path string, points map[string]int) (string, error) {
 			for _, st := range list {
 				if _, isDecl := st.(*ast.DeclStmt); !isDecl {
 					acc := instrAccesses(recv, named[rt], st)
+					// FINE points inside the function passed to a once: in front of every statement of it but the first that
+					// touches the receiver (the stores of a starting leaf one by one)
+					ast.Inspect(st, func(x ast.Node) bool {
+						c, ok := x.(*ast.CallExpr)
+						if !ok {
+							return true
+						}
+						se, ok := c.Fun.(*ast.SelectorExpr)
+						if !ok || se.Sel.Name != "Do" || len(c.Args) != 1 {
+							return true
+						}
+						fl, ok := c.Args[0].(*ast.FuncLit)
+						if !ok {
+							return true
+						}
+						seen := 0
+						for j, inner := range fl.Body.List {
+							if a := instrAccesses(recv, named[rt], inner); len(a) > 0 {
+								if seen > 0 {
+									label := fmt.Sprintf("fine:%s.%s.once#%d|%s", rt, fd.Name.Name, j, strings.Join(a, ","))
+									ins = append(ins, instrIns{fset.Position(inner.Pos()).Offset, fmt.Sprintf("verifhook.At(%q); ", label)})
+								}
+								seen++
+							}
+						}
+						return false
+					})
 					if len(acc) > 0 {
 						fs, ro := readOnly(acc)
 						join := ro && group != nil
@@ -533,6 +560,9 @@ func instrumentFile(path string, points map[string]int) (string, error) {
 							for f := range fs {
 								group[f] = true
 							}
+							// a FINE point (ignored unless a case asks for `pts=fine`): between two loads of one read-only group
+							label := fmt.Sprintf("fine:%s.%s#%d|%s", rt, fd.Name.Name, k, strings.Join(acc, ","))
+							ins = append(ins, instrIns{fset.Position(st.Pos()).Offset, fmt.Sprintf("verifhook.At(%q); ", label)})
 						} else {
 							label := fmt.Sprintf("%s.%s#%d|%s", rt, fd.Name.Name, k, strings.Join(acc, ","))
 							ins = append(ins, instrIns{fset.Position(st.Pos()).Offset, fmt.Sprintf("verifhook.At(%q); ", label)})
